@@ -69,7 +69,8 @@ WhyDead(s, kind, id) ==
                             THEN (IF s.S.at[id].via = "authz" /\ s.S.at[id].why \in {"rotated", "replay", "reuse"}
                                   THEN s.S.at[id].why \o "_authz" ELSE s.S.at[id].why)
                             ELSE "expired")
-  ELSE (IF ~Has(s.S.rt, id) THEN "never_issued" ELSE IF ~s.S.rt[id].present \/ ~s.S.rt[id].active THEN s.S.rt[id].why ELSE "expired")
+  ELSE (IF ~Has(s.S.rt, id) THEN "never_issued" ELSE IF ~s.S.rt[id].present \/ ~s.S.rt[id].active THEN s.S.rt[id].why
+        ELSE IF s.cfg.no_rt_intro /\ RTActive(s, id) THEN "rt_introspection_disabled" ELSE "expired")
 
 Mismatch(e, r, d) ==
   LET pa == ProbeAT(r.st)
